@@ -52,7 +52,7 @@ func writeValue(e *Encoder, d *decodeState, ifWriteTag bool, tagName string) err
 		return err
 
 	default:
-		panic(phasePanicMsg)
+		return d.error(phasePanicMsg)
 	}
 }
 
@@ -91,7 +91,7 @@ func writeCompoundPayload(e *Encoder, d *decodeState) error {
 			return d.error(d.scan.errContext)
 		}
 		if d.opcode != scanBeginLiteral {
-			panic(phasePanicMsg)
+			return d.error(phasePanicMsg)
 		}
 		// read tag name
 		start := d.readIndex()
@@ -114,7 +114,7 @@ func writeCompoundPayload(e *Encoder, d *decodeState) error {
 			return d.error(d.scan.errContext)
 		}
 		if d.opcode != scanCompoundTagName {
-			panic(phasePanicMsg)
+			return d.error(phasePanicMsg)
 		}
 
 		if err := writeValue(e, d, true, tagName); err != nil {
@@ -132,7 +132,7 @@ func writeCompoundPayload(e *Encoder, d *decodeState) error {
 			break
 		}
 		if d.opcode != scanCompoundValue {
-			panic(phasePanicMsg)
+			return d.error(phasePanicMsg)
 		}
 	}
 	_, err := e.w.Write([]byte{TagEnd})
@@ -206,7 +206,7 @@ func writeListOrArray(e *Encoder, d *decodeState, ifWriteTag bool, tagName strin
 			}
 		}
 		if d.opcode != scanListValue && d.opcode != scanEndValue { // TAG_List<TAG_String>
-			panic(phasePanicMsg)
+			return tagType, d.error(phasePanicMsg)
 		}
 		tagType = TagList
 		var elemType byte
@@ -238,7 +238,7 @@ func writeListOrArray(e *Encoder, d *decodeState, ifWriteTag bool, tagName strin
 				break
 			}
 			if d.opcode != scanListValue {
-				panic(phasePanicMsg)
+				return tagType, d.error(phasePanicMsg)
 			}
 			d.scanWhile(scanSkipSpace)
 			if d.opcode == scanError {
@@ -298,7 +298,7 @@ func writeListOrArray(e *Encoder, d *decodeState, ifWriteTag bool, tagName strin
 				break
 			}
 			if d.opcode != scanListValue {
-				panic(phasePanicMsg)
+				return tagType, d.error(phasePanicMsg)
 			}
 			// read '['
 			d.scanNext()
@@ -344,7 +344,7 @@ func writeListOrArray(e *Encoder, d *decodeState, ifWriteTag bool, tagName strin
 				break
 			}
 			if d.opcode != scanListValue {
-				panic(phasePanicMsg)
+				return tagType, d.error(phasePanicMsg)
 			}
 			// read '{'
 			d.scanNext()
@@ -424,7 +424,7 @@ func writeArray(e, e2 *Encoder, d *decodeState, elemType byte, count *int, buf *
 			break
 		}
 		if d.opcode != scanListValue {
-			panic(phasePanicMsg)
+			return d.error(phasePanicMsg)
 		}
 		d.scanWhile(scanSkipSpace) // ,
 	}
@@ -562,7 +562,7 @@ func parseLiteral(literal []byte) (byte, any, error) {
 			return TagString, string(literal), nil
 		}
 	}
-	panic(phasePanicMsg)
+	return 0, nil, &SyntaxError{Message: "invalid literal " + strconv.Quote(string(literal))}
 }
 
 func (d *decodeState) error(msg string) *SyntaxError {
